@@ -23,6 +23,9 @@ EndClauses(s, r) ==
   If(r.outcome \notin {"Returned", "ZeroErr", "RangeErr"}, "C02.UnexpectedException") \cup
   If(s.reachable /\ r.outcome # "Returned", "C02.FailsOnReachableTarget") \cup
   If(r.outcome = "Returned" /\ r.observed /\ ~r.missOK, "C02.ReturnedElevationMisses") \cup
+  \* an angle was returned, but the trajectory fired with it ends (range error) before the aim point's distance: the target
+  \* was out of reach and an error was due instead of an angle
+  If(r.outcome = "Returned" /\ ~r.reaches, "C02.ReturnedForUnreachableTarget") \cup
   If(r.outcome # "Returned" /\ ~r.storedSame, "C02.FailedZeroChangedStoredZero") \cup
   If(r.outcome = "Returned" /\ ~r.storedIsResult, "C02.StoredZeroNotTheResult")
 
